@@ -371,12 +371,18 @@ def history_stream(ctx, res):
             loads_back(s, cfg, dest, fmt, kp, opts, case, "format-option-names-a-key")
 
 
+def extension_roundtrip_stream(ctx, res):
+    import extstreams
+    extstreams.extension_roundtrip_stream(ctx, res, "C19")
+
+
 def run(ctx):
     import cincoconfig
     from cincoconfig import asdict
     from cincoconfig.core import Config, ConfigFormat, Field
     from cincoconfig.encryption import KeyFile
     res = Result()
+    guard(res, "C19", extension_roundtrip_stream, ctx, res)
     rng = ctx.rng
     tmp = ctx.tmpdir()
     reqs, pend = [], []
